@@ -2108,13 +2108,16 @@ class locked_ref:
 
         # Delete the actual ref file while holding the lock
         if self._realname:
+            # Remove the packed entry first: once the loose file is gone an
+            # older packed value would show through until it is removed too
+            # (and for good, if we are interrupted in between).
+            self._refs_container._remove_packed_ref(self._realname)
             filename = self._refs_container.refpath(self._realname)
             try:
                 if os.path.lexists(filename):
                     os.remove(filename)
             except FileNotFoundError:
                 pass
-            self._refs_container._remove_packed_ref(self._realname)
 
         self._deleted = True
 
